@@ -176,7 +176,7 @@ type submitRunner struct {
 	roots []string // ids the harness believes are accepted (from successful SetRootsFromPEM calls)
 	// leaves the oracle accounts for: index -> description
 	accounted map[int64]string
-	bySub     map[string]int64 // request key -> index it was given
+	bySub     map[string]int64  // request key -> index it was given
 	byName    map[string]string // request name -> request key (alternate chains of one leaf share a key)
 	i3bad     []string
 	traced    bool
